@@ -452,6 +452,8 @@ class TableRun:
 
     def row(self, case: str, mode, ok: bool, detail: str = "", undecided: Optional[str] = None):
         self.rows += 1
+        if ok and not undecided and detail != "dontcare" and len(getattr(self, "sample_rows", [])) < 3 and self.rows % 7 == 1:
+            self.__dict__.setdefault("sample_rows", []).append({"abstract_case": case, "mode": repr(mode), "verdict": "agrees with spec"})
         if ok and detail == "dontcare":
             self.skipped = getattr(self, "skipped", 0) + 1
             return
@@ -474,4 +476,6 @@ class TableRun:
         if not self.bad and not self.undecided:
             self.rep.proved(self.rule, self.where, what, "%d abstract cases (weak orders x modes) agree with the spec table%s" % (self.rows, (" (%d unconstrained tie cases skipped)" % self.skipped) if getattr(self, "skipped", 0) else ""), loc=self.loc)
         t = self.rep.extra.setdefault("tables", {})
-        t["%s %s %s #%d" % (self.rule, self.where, what, len(t))] = {"cases": self.rows, "disagree": self.bad, "undecided": self.undecided, "wall_s": round(time.time() - self.t0, 2)}
+        t["%s %s %s #%d" % (self.rule, self.where, what, len(t))] = {"cases": self.rows, "abstract_states": self.states, "disagree": self.bad, "undecided": self.undecided,
+                                                                      "skipped_unconstrained_ties": getattr(self, "skipped", 0), "wall_s": round(time.time() - self.t0, 2),
+                                                                      "samples": getattr(self, "sample_rows", [])}
